@@ -11,10 +11,10 @@ import (
 // Holes: ‹I› int, ‹U› uint, ‹F› float64, ‹S› string, ‹B› bool, ‹BS› []byte, ‹IL› int literal,
 // ‹CMP› comparison operator; ‹K:id› repeats the same text.
 type ExecKernel struct {
-	Family string   // checker the kernel is aimed at
-	Body   string   // statements; results r0 int, r1 string, r2 bool, r3 float64 are named
-	Focus  []string // parameters whose grids are crossed completely (others vary pseudo-randomly)
-	NoZeroUint bool // the rule subtracts from unsigned operands: overflow inputs are excluded
+	Family     string   // checker the kernel is aimed at
+	Body       string   // statements; results r0 int, r1 string, r2 bool, r3 float64 are named
+	Focus      []string // parameters whose grids are crossed completely (others vary pseudo-randomly)
+	NoZeroUint bool     // the rule subtracts from unsigned operands: overflow inputs are excluded
 }
 
 // ExecParams is the parameter list of every executable kernel.
@@ -189,6 +189,9 @@ var ExecKernels = []ExecKernel{
 	{Family: "boolExprSimplify", Body: "r2 = ‹B:x› && ‹B:x›\nr2 = r2 != (‹B:y› || ‹B:y›)\nr2 = r2 != (‹B› && true) != (false || ‹B›)", Focus: []string{"p", "q", "a"}},
 	// 5 compound assignment
 	{Family: "assignOp", Body: "x := ‹I›\nx = x ‹ASSIGNOP› ‹I›\nr0 = x"},
+	{Family: "assignOp", Body: "x := ‹I›\nx = ‹I› ‹ASSIGNOP› x\ny := ‹I›\ny = ‹I› - y\ny = 3 / (y | 1)\nr0 = x + y*7"},
+	{Family: "assignOp", Body: "z := ‹S›\nz = ‹S› + z\nr1 = z\nns := namedS(‹S›)\nns = namedS(‹S›) + ns\nns = ns + \"!\"\nr1 += string(ns)\nst := strT(s)\nst = strT(t) + st\nr1 += string(st)", Focus: []string{"s", "t"}},
+	{Family: "assignOp", Body: "x := ‹F›\nx = ‹F› + x\nx = 2 * x\nx = ‹F› - x\nnf := namedF(‹F›)\nnf = namedF(g) * nf\nr3 = x + float64(nf)\nni := namedI(‹I›)\nni = namedI(‹I›) | ni\nni = namedI(b) ^ ni\nr0 = int(ni)", Focus: []string{"f", "g", "a", "b"}},
 	{Family: "assignOp", Body: "x := ‹I›\nx = x + 1\nx = x - 1\nx = x / 3\nx = x % 5\nx = x << 2\nx = x >> 1\nr0 = x"},
 	{Family: "assignOp", Body: "ys := []int{1, 2, 3, 4}\nys[‹I:i›&3] = ys[‹I:i›&3] + ‹I›\nr0 = ys[0] + ys[1]*10 + ys[2]*100 + ys[3]*1000"},
 	{Family: "assignOp", Body: "pr := pair{a: ‹I›}\npp := &pr\npp.a = pp.a * ‹I›\npr.arr[1] = pr.arr[1] + ‹I›\n(*pp).a = (*pp).a - 1\nr0 = pr.a + pr.arr[1]"},
